@@ -1,4 +1,4 @@
-import LexVerif.Props.C01Number
+import LexVerif.Props.C01Trunc
 /-!
 # Props.C01Final — C01 with Eisel–Lemire proved and the slow path modelled
 
@@ -384,13 +384,122 @@ theorem wrapperDecides_spec (F : FTy) (n : Num) (h : wrapperDecides F n = true) 
 example : ∃ fp, Lemire.lemire FTy.f64 ⟨1234567890123456789, -18, false, true⟩ false = .ok fp ∧ 0 ≤ fp.exp :=
   wrapperDecides_spec _ _ (by decide +kernel)
 
+/-! ## truncated mantissas the wrapper does not decide: the slow path -/
+
+/-- the digit-count condition of the slow-path model: at most `max_digits` significant digits (769 for `f64`, 114 for
+`f32`), or only zeros beyond (`Props.C01Slow.truncation_invariant` is what would remove it) -/
+def FewDigits (c : Cfg) (F : FTy) (n : Number) : Prop :=
+  ∀ d, (Slow.envOf c.feats).S.maxDigits F.fmt 10 = some d →
+    (sigBytes n.integer n.fraction).length ≤ d ∨ Slow.anyNonzero ((sigBytes n.integer n.fraction).drop d) = false
+
+/-- the estimate `lemire` hands to `negative_digit_comp` rounds down to a finite float (it can fail to only for a value of
+at least `2^(emax+1)` written with more than `emax·log 2` integer digits on which `lemire` does not answer infinity itself) -/
+def FiniteEstimate (c : Cfg) (F : FTy) (n : Number) : Prop :=
+  ∀ fp d, Lemire.lemire F (numOf n) false = .ok fp → fp.exp < 0 →
+    (Slow.envOf c.feats).S.maxDigits F.fmt 10 = some d →
+    C01Slow.digitExponent (sciOf c n) (C01Slow.mantissaOf 10 d (sigBytes n.integer n.fraction)).2 < 0 →
+    C01Slow.roundedDown F { fp with exp := fp.exp - invalidFp } < F.fmt.infBits
+
+/-- **a truncated decimal `Number`, decided or not**: `lemire` answers (no panic); a valid answer is right
+(`numberToFloat_truncated_decided`); an invalid-marked one is an estimate of `w·10^q` from inside the table
+(`C01Trunc.lemire_truncated`), with which the slow-path model returns the float nearest to the value of all the digits
+(`C01Trunc.slowDomain_of_truncated`). -/
+theorem numberToFloat_truncated {F : FTy} (hF : IsLemireFloat F) (c : Cfg)
+    (hcompact : c.feats.compact = false) (hr : c.mantissaRadix = 10) (hb : c.exponentBase = 10)
+    (n : Number) (hmany : n.manyDigits = true) (hs : PlainSlices c n)
+    (hN : 19 < (sigBytes n.integer n.fraction).length)
+    (hw : n.mantissa = ofDigits 10 (dv 10 ((sigBytes n.integer n.fraction).take 19)))
+    (hw1 : 10 ^ 18 ≤ n.mantissa) (hwlt : n.mantissa < 10 ^ 19)
+    (hq : n.exponent = ((sigBytes n.integer n.fraction).length : Int) - 19 + n.explicitExp -
+      ((n.fraction.getD []).length : Int))
+    (hE1 : -(2 ^ 40 : Int) ≤ n.explicitExp) (hE2 : n.explicitExp ≤ 2 ^ 40)
+    (hl1 : n.integer.length < 2 ^ 60) (hl2 : (n.fraction.getD []).length < 2 ^ 60)
+    (hfew : FewDigits c F n) (hfin : FiniteEstimate c F n) :
+    numberToFloat slowModel c F n false = some (numberBits c F.fmt n) := by
+  have hw0 : n.mantissa ≠ 0 := by
+    have : 0 < 10 ^ 18 := Nat.pow_pos (by decide)
+    omega
+  have hw64 : n.mantissa + 1 < 2 ^ 64 := by
+    have : (10 : Nat) ^ 19 < 2 ^ 64 := by decide
+    omega
+  have hnum : numOf n = ⟨n.mantissa, n.exponent, n.isNegative, true⟩ := by unfold numOf; rw [hmany]
+  obtain ⟨fp, hm, hfacts⟩ := C01Trunc.lemire_truncated F hF n.exponent n.mantissa n.isNegative hw0 hw64
+  rw [← hnum] at hm
+  by_cases hv : 0 ≤ fp.exp
+  · exact numberToFloat_truncated_decided hF slowModel c hcompact hr hb n hmany hs hN hw hwlt hq hE1 hE2 hl1 hl2
+      ⟨fp, hm, hv⟩
+  · have hinv : fp.exp < 0 := by omega
+    obtain ⟨hq1, hq2, p, eb, lay, hest⟩ := hfacts hinv
+    obtain ⟨d, hd, hd19, hd769⟩ := C01Trunc.maxDigits_decimal_le c.feats hF
+    obtain ⟨D, hbr⟩ := C01Trunc.slowDomain_of_truncated hF lay c hr hb n hs hN hw hw1 hwlt hq hq1 hq2 fp hest d hd
+      hd19 hd769 (hfew d hd) (hfin fp d hm hinv hd)
+    -- the specification side
+    have hbits : numberBits c F.fmt n = litBits F.fmt 10 10 (numberLit c n) := by
+      unfold numberBits numberLit
+      simp only [hmany, if_true, hr, hb]
+      rfl
+    have hlit := litBits_exact lay (r := 10) (b := 10) (by decide) (by decide) (by decide) (numberLit c n)
+      (by have := numberLit_digits_lt c n; rwa [hr] at this)
+    have hslow := slowModel_hslow hF lay (hden_of hF) (by omega) n fp D (by rw [hr, hb]; exact hbr)
+    rw [hr, hb] at hslow
+    -- the pipeline
+    unfold numberToFloat
+    have hfast : FastPath.tryFastPath (smallSetOf c.feats) F c.mantissaRadix c.exponentBase (numOf n) = .none := by
+      unfold FastPath.tryFastPath FastPath.isFastPath
+      rw [hr, hb]
+      simp only [ne_eq, not_true_eq_false, if_false]
+      have : (numOf n).manyDigits = true := hmany
+      simp [this]
+    rw [hfast]
+    simp only
+    have hmp : moderatePath c F (numOf n) false = .ok fp := by
+      unfold moderatePath
+      rw [hr, backend_lemire _ hcompact]
+      exact hm
+    rw [hmp]
+    simp only
+    rw [if_pos hinv, slowPath_generic slowModel c D.env, toNative_eq F _ n.isNegative hslow, hbits, hlit]
+    rfl
+
+/-- **`C01_decimal_correct_slow`** — the decimal theorem for **every** input, truncated mantissas included, whether or not
+the two-pass wrapper decides: non-`compact` build, radix 10, separator-free format class, `f32`/`f64`, complete and
+partial parser. `parseFloatAlgoModel slowModel` — syntax → `try_fast_path` → `lemire` (both passes, `compute_error`) →
+`slow_radix` (`parse_mantissa`, `positive_digit_comp` / `negative_digit_comp`, big-integer arithmetic with its capacity
+checks) → `to_native` — prints what the specification prints. Residual hypotheses, both about truncated `Number`s only:
+`hfew` (at most `max_digits` significant digits, or zeros beyond) and `hfin` (`FiniteEstimate`). -/
+theorem C01_decimal_correct_slow (feats : Features) (hcompact : feats.compact = false) (fmt : Format)
+    (hr : fmt.mantissaRadix = 10) (hb : fmt.exponentBase = 10)
+    (hclass : feats.format = false ∨ C12.SepPrefixFree fmt)
+    (o : POpts) {F : FTy} (hF : IsLemireFloat F) (isPartial : Bool) (s : List Nat)
+    (h256 : ∀ x ∈ s, x < 256) (hlen : s.length < 2 ^ 60)
+    (hfew : ∀ n cnt, parseFloatSyntax ⟨feats, fmt, false⟩ o isPartial s (formatError feats fmt).isNone =
+      .ok (.number n cnt) → n.manyDigits = true → FewDigits ⟨feats, fmt, false⟩ F n)
+    (hfin : ∀ n cnt, parseFloatSyntax ⟨feats, fmt, false⟩ o isPartial s (formatError feats fmt).isNone =
+      .ok (.number n cnt) → n.manyDigits = true → FiniteEstimate ⟨feats, fmt, false⟩ F n) :
+    parseFloatAlgoModel slowModel feats fmt o isPartial F s = parseFloatModel feats fmt o isPartial F.fmt s := by
+  apply parseFloatAlgoModel_eq_valid
+  intro hval n cnt hp
+  have hdp := dp_not_digit feats fmt o (by omega) hval
+  cases hmany : n.manyDigits with
+  | false =>
+    obtain ⟨hx, hs, hfew19⟩ := C01Number.number_exact_of_syntax ⟨feats, fmt, false⟩ rfl hclass hr hb o hdp isPartial s _
+      h256 hlen n cnt hp hmany
+    rw [numberToFloat_exact hF ⟨feats, fmt, false⟩ hcompact hr hb n hmany hx hs hfew19]
+    have hr' : (⟨feats, fmt, false⟩ : Cfg).mantissaRadix = 10 := hr
+    have hb' : (⟨feats, fmt, false⟩ : Cfg).exponentBase = 10 := hb
+    rw [(spec_forms hF ⟨feats, fmt, false⟩ (by omega) (by omega) (by omega) n hmany hx.2.2).2]
+  | true =>
+    obtain ⟨hs, hN, hw, hw1, hwlt, hq, hE1, hE2, hl1, hl2⟩ := C01Number.number_truncated_of_syntax ⟨feats, fmt, false⟩ rfl
+      hclass hr hb o hdp isPartial s _ h256 hlen n cnt hp hmany
+    exact numberToFloat_truncated hF ⟨feats, fmt, false⟩ hcompact hr hb n hmany hs hN hw hw1 hwlt hq
+      hE1 hE2 hl1 hl2 (hfew n cnt hp hmany) (hfin n cnt hp hmany)
+
 /-- **full statement** (a `Prop`): the same for **every** input, truncated mantissas (more than 19 significant digits)
-included, and for `compact` builds. Proved towards it: untruncated inputs (`C01_decimal_correct`) and truncated inputs on
-which the two-pass wrapper decides (`C01_decimal_correct_all`, hypothesis `hdec`). Missing: truncated inputs where `w` and
-`w+1` round differently — the `compute_error` estimates there are not yet characterised (`SlowDomain.estimate` for truncated
-`Number`s; their words are related to the slices by `number_truncated_of_syntax`), and
-`Props.C01Slow.truncation_invariant` (non-zero cut tail beyond `max_digits`) is open; `compact`: the Bellerophon analogue
-of `lemire_estimate_facts`. -/
+included, and for `compact` builds. Proved towards it: untruncated inputs (`C01_decimal_correct`), truncated inputs on
+which the two-pass wrapper decides (`C01_decimal_correct_all`), and truncated inputs handed to the slow path
+(`C01_decimal_correct_slow`) with at most `max_digits` significant digits and a finite round-down of the estimate. Missing:
+`Props.C01Slow.truncation_invariant` (a non-zero cut tail beyond `max_digits`), the `b = ∞` case of `negative_digit_comp`
+(`FiniteEstimate`), and `compact` builds (the Bellerophon analogue of `lemire_estimate_facts`). -/
 def C01_decimal_full : Prop :=
   ∀ (feats : Features) (fmt : Format), fmt.mantissaRadix = 10 → fmt.exponentBase = 10 →
     (feats.format = false ∨ C12.SepPrefixFree fmt) →
